@@ -127,6 +127,11 @@ impl<V> Listing for HashMap<usize, V> { open spec fn elems(&self) -> Set<usize> 
 } // verus!
 '''
 
+RN_ENS = '''exists|c: Cands<F>, v: Set<usize>| #![trigger apply_seq(ops@, c, v, ops@.len() as int)]
+            (forall|k: usize| #[trigger] c.dom().contains(k) ==> cand_ok(&self, ops@, k, c[k])) && v.subset_of(c.dom())
+            && (exists|fp: Map<WitnessId, usize>| #[trigger] positions_rel(fp, v, c, ops@) && forall|a: usize| v.contains(a) ==> keep(self.defs@, c, fp, a))
+            && ret@ == apply_seq(ops@, c, v, ops@.len() as int)'''
+
 GEN = '<F: Field>'
 CAPS = {
     'self': 'this: &MulAddFusion<F>',
@@ -403,10 +408,7 @@ def build():
     rn.rewrite_re('R12', r'\bSelf::', 'MulAddFusion::')
     rn.requires(*IDC_REQ)
     rn.requires('op_count_fits', 'ops@.len() < usize::MAX')
-    rn.ensures('result_is_the_op_list_with_a_sound_set_of_fusions_applied', '''exists|c: Cands<F>, v: Set<usize>| #![trigger apply_seq(ops@, c, v, ops@.len() as int)]
-            (forall|k: usize| #[trigger] c.dom().contains(k) ==> cand_ok(&self, ops@, k, c[k])) && v.subset_of(c.dom())
-            && (exists|fp: Map<WitnessId, usize>| #[trigger] positions_rel(fp, v, c, ops@) && forall|a: usize| v.contains(a) ==> keep(self.defs@, c, fp, a))
-            && ret@ == apply_seq(ops@, c, v, ops@.len() as int)''')
+    rn.ensures('result_is_the_op_list_with_a_sound_set_of_fusions_applied', RN_ENS)
     if re.search(r'let valid = self\.filter_valid\(&ops, &candidates\);', rn.body):
         rn.rewrite_re('SPEC', r'(let valid = self\.filter_valid\(&ops, &candidates\);)', r'\1 let ghost c_ = candidates@; let ghost v_ = valid@; let ghost o_ = ops@; proof { lemma_muls_unique(&self, o_, c_, v_); }')
         rn.bind_tail('res_', 'proof { assert(res_@ == apply_seq(o_, c_, v_, o_.len() as int)); }')
